@@ -20,5 +20,5 @@ void sync(Substrate& s, unsigned W, unsigned R, bool b, bool a, const std::strin
 }
 void resetMirrors(Substrate& s) { s.reset_mirrorField<Reduce_set_f_set>(); }
 } // namespace
-const c18::FieldVT c18::vt_f_set = {"f_set", "GALOIS_SYNC_STRUCTURE_REDUCE_SET(uint32_t)", R_SET, K_U32, 1, true,
+const c18::FieldVT c18::vt_f_set = {"f_set", "GALOIS_SYNC_STRUCTURE_REDUCE_SET(uint32_t)", R_SET, K_U32, 1, true, true,
                                     store, load, write, &bitset_f_set, sync, resetMirrors};
